@@ -316,6 +316,81 @@ Prefix8(s) ==
     LET B(i) == IF i <= Len(s) THEN s[i] ELSE 0
     IN  <<B(7) + 256 * B(8), B(5) + 256 * B(6), B(3) + 256 * B(4), B(1) + 256 * B(2)>>
 
+(* ------------------------------------------------------------------------- *)
+(* ASCII text kernels of string::bmi2_string_ops (8-byte chunks vs scalar).   *)
+AsciiLower(s) == [i \in 1..Len(s) |-> IF s[i] >= 65 /\ s[i] <= 90 THEN s[i] + 32 ELSE s[i]]
+AsciiUpper(s) == [i \in 1..Len(s) |-> IF s[i] >= 97 /\ s[i] <= 122 THEN s[i] - 32 ELSE s[i]]
+(* glob matching: '*' (42) any run of bytes, '?' (63) exactly one byte, else literally; the  *)
+(* WHOLE text must be consumed                                                               *)
+RECURSIVE WildFrom(_, _, _, _)
+WildFrom(t, p, i, j) ==
+    IF j > Len(p) THEN i > Len(t)
+    ELSE IF p[j] = 42 THEN WildFrom(t, p, i, j + 1) \/ (i <= Len(t) /\ WildFrom(t, p, i + 1, j))
+    ELSE i <= Len(t) /\ (p[j] = 63 \/ p[j] = t[i]) /\ WildFrom(t, p, i + 1, j + 1)
+WildMatch(t, p) == WildFrom(t, p, 1, 1)
+IsAlpha(b) == (b >= 65 /\ b <= 90) \/ (b >= 97 /\ b <= 122)
+IsDigit(b) == b >= 48 /\ b <= 57
+IsSpace(b) == b \in {32, 9, 10, 12, 13}                 \* u8::is_ascii_whitespace
+IsPunct(b) == (b >= 33 /\ b <= 47) \/ (b >= 58 /\ b <= 64) \/ (b >= 91 /\ b <= 96) \/ (b >= 123 /\ b <= 126)
+(* a class / filter is a record [kind, set, lo, hi] *)
+ClassMatch(c, b) ==
+    CASE c.kind = "alpha"  -> IsAlpha(b)
+      [] c.kind = "digit"  -> IsDigit(b)
+      [] c.kind = "alnum"  -> IsAlpha(b) \/ IsDigit(b)
+      [] c.kind = "space"  -> IsSpace(b)
+      [] c.kind = "punct"  -> IsPunct(b)
+      [] c.kind = "custom" -> b \in RangeOf(c.set)
+      [] c.kind = "range"  -> b >= c.lo /\ b <= c.hi
+FilterKeeps(f, b) ==
+    CASE f.kind = "alpha"  -> IsAlpha(b)
+      [] f.kind = "digit"  -> IsDigit(b)
+      [] f.kind = "alnum"  -> IsAlpha(b) \/ IsDigit(b)
+      [] f.kind = "nows"   -> ~IsSpace(b)
+      [] f.kind = "keep"   -> b \in RangeOf(f.set)
+      [] f.kind = "remove" -> b \notin RangeOf(f.set)
+FilterBytes(s, f) == SelectSeq(s, LAMBDA b : FilterKeeps(f, b))
+(* maximal runs of equal bytes: <<byte, start (0-based), length>> *)
+RECURSIVE RunsFrom(_, _, _)
+RunsFrom(s, start, i) ==        \* the run that began at 1-based index start is open, i is the next index
+    IF i > Len(s) THEN <<<<s[start], start - 1, i - start>>>>
+    ELSE IF s[i] = s[start] THEN RunsFrom(s, start, i + 1)
+    ELSE <<<<s[start], start - 1, i - start>>>> \o RunsFrom(s, i, i + 1)
+Runs(s) == IF Len(s) = 0 THEN <<>> ELSE RunsFrom(s, 1, 2)
+(* dictionary scan: for every position, every entry (in order) that occurs there: <<pos, len, index>> *)
+DictMatches(h, entries) ==
+    LET pairs == [k \in 1..(Len(h) * Len(entries)) |->
+                     <<(k - 1) \div Len(entries), ((k - 1) % Len(entries)) + 1>>]
+        hits  == SelectSeq(pairs, LAMBDA q : MatchAt(h, entries[q[2]], q[1]))
+    IN  [k \in 1..Len(hits) |-> <<hits[k][1], Len(entries[hits[k][2]]), hits[k][2] - 1>>]
+(* the byte-wise string hash h <- rotl(h, 5) + byte *)
+StrHashBytes(s, base) == HashBytes(base, s, 1)
+
+(* ------------------------------------------------------------------------- *)
+(* string::unicode                                                             *)
+(* length of the sequence a lead byte announces; 0 for continuation / invalid bytes *)
+Utf8LeadLen(b) == IF b < 128 THEN 1 ELSE IF b < 192 THEN 0 ELSE IF b < 224 THEN 2
+                  ELSE IF b < 240 THEN 3 ELSE IF b < 248 THEN 4 ELSE 0
+IsControlCp(cp) == cp <= 31 \/ (cp >= 127 /\ cp <= 159)            \* general category Cc
+CountIf(d, P(_)) == Cardinality({j \in 1..Len(d) : P(d[j])})
+Reverse(d) == [j \in 1..Len(d) |-> d[Len(d) + 1 - j]]
+(* byte offsets at which the characters of a valid string start, then the total length *)
+RECURSIVE CharStartsFrom(_, _)
+CharStartsFrom(s, i) == IF i > Len(s) THEN <<Len(s)>> ELSE <<i - 1>> \o CharStartsFrom(s, i + SeqLenOf(s[i]))
+CharStarts(s) == CharStartsFrom(s, 1)
+
+(* ------------------------------------------------------------------------- *)
+(* bit fields                                                                 *)
+(* n bits of x starting at bit start (bits beyond 63 read as zero), as a word *)
+Field(x, start, n) ==
+    LET b == ToBits(x, 64)
+    IN  FromBits([i \in 1..n |-> IF start + i <= 64 THEN b[start + i] ELSE 0])
+Low32(x) == <<0, 0, x[3], x[4]>>
+(* bit 2i of the result = bit i of lo, bit 2i+1 = bit i of hi (lo, hi 32-bit) *)
+Interleave(lo, hi) ==
+    LET a == ToBits(lo, 32)  b == ToBits(hi, 32)
+    IN  FromBits([i \in 1..64 |-> IF i % 2 = 1 THEN a[(i + 1) \div 2] ELSE b[i \div 2]])
+LeadingZeros(x, w) == LET o == OnesOf(ToBits(x, w)) IN IF Len(o) = 0 THEN w ELSE w - 1 - o[Len(o)]
+
 (* ========================================================================= *)
 (* CONTRACT: which logged results of one event e are allowed.  The events    *)
 (* are fully logged (inputs and results), the module has no state, so an     *)
@@ -441,6 +516,80 @@ PositionsOK(e) == e.r = PositionsOf(e.h, e.c)
 FindLastOK(e) == e.r = OptOf(FindLastByte(e.h, e.c))
 PopCountBytesOK(e) == e.r = PopCountBytes(e.h)
 
+LowerOK(e) == e.r = AsciiLower(e.s)
+UpperOK(e) == e.r = AsciiUpper(e.s)
+WildcardOK(e) == e.r = WildMatch(e.t, e.p)
+CharClassOK(e) ==
+    e.r = [i \in 1..Len(e.s) |-> \E k \in 1..Len(e.classes) : ClassMatch(e.classes[k], e.s[i])]
+FilterOK(e) == e.r = FilterBytes(e.s, e.f)
+RunsOK(e) == e.r = Runs(e.s)
+DictOK(e) == e.r = DictMatches(e.h, e.entries)
+(* ranges <<start, len>>; refused exactly when a range leaves the text *)
+SubstringsOK(e) ==
+    LET inside == \A k \in 1..Len(e.ranges) : e.ranges[k][1] + e.ranges[k][2] <= Len(e.s)
+    IN  IF e.ok THEN /\ inside
+                     /\ e.r = [k \in 1..Len(e.ranges) |-> SubSeq(e.s, e.ranges[k][1] + 1, e.ranges[k][1] + e.ranges[k][2])]
+        ELSE ~inside
+ValidBulkOK(e) == e.r = [k \in 1..Len(e.ss) |-> Utf8Valid(e.ss[k])]
+EqualBulkOK(e) == e.r = [k \in 1..Len(e.pairs) |-> Equal(e.pairs[k][1], e.pairs[k][2])]
+ByteHashOK(e) == e.r = StrHashBytes(e.s, e.base)
+ByteHashBulkOK(e) == e.r = [k \in 1..Len(e.ss) |-> StrHashBytes(e.ss[k], e.base)]
+LeadLenOK(e) == e.r = [b \in 1..256 |-> Utf8LeadLen(b - 1)]
+(* iterator over a byte string: construction succeeds exactly on valid strings; forward gives *)
+(* the code points and the byte position after each, backward the same in reverse             *)
+Utf8IterOK(e) ==
+    IF e.ok
+    THEN /\ Utf8Valid(e.s)
+         /\ e.fwd = Utf8Decode(e.s)
+         /\ e.pos = Tail(CharStarts(e.s))
+         /\ e.bwd = Reverse(Utf8Decode(e.s))
+         /\ e.bpos = Reverse(SubSeq(CharStarts(e.s), 1, Len(CharStarts(e.s)) - 1))
+    ELSE ~Utf8Valid(e.s)
+(* the counts of UnicodeProcessor::analyze that have a definition without Unicode tables *)
+Utf8AnalyzeOK(e) ==
+    LET d == Utf8Decode(e.s)
+        Ascii(c) == c <= 127
+        Lat1(c) == c >= 128 /\ c <= 255
+        Ext(c) == c >= 256 /\ c <= 6143
+        Other(c) == c >= 6144
+    IN  /\ Utf8Valid(e.s)
+        /\ e.bytes = Len(e.s) /\ e.chars = Len(d)
+        /\ e.ascii = CountIf(d, Ascii) /\ e.basic = CountIf(d, Ascii)
+        /\ e.lat1 = CountIf(d, Lat1) /\ e.ext = CountIf(d, Ext) /\ e.other = CountIf(d, Other)
+        /\ e.control = CountIf(d, IsControlCp)
+        /\ e.isascii = (CountIf(d, Ascii) = Len(d))
+PrintableOK(e) ==
+    LET d == Utf8Decode(e.s)
+    IN  Utf8Valid(e.s) /\ e.r = (\A j \in 1..Len(d) : ~IsControlCp(d[j]) \/ d[j] \in {9, 10, 13})
+HexNibbleOK(e) == e.r = [b \in 1..256 |-> HexVal(b - 1)]
+HexDigitOK(e)  == e.r = [v \in 1..16 |-> HexDigit(v - 1, e.upper)]
+(* r[(i-1)*|los| + j] answers parse_hex_byte(his[i], los[j]); -1 = None *)
+HexByteOK(e) ==
+    /\ Len(e.r) = Len(e.his) * Len(e.los)
+    /\ \A i \in 1..Len(e.his) : \A j \in 1..Len(e.los) :
+          e.r[(i - 1) * Len(e.los) + j] =
+              (IF HexVal(e.his[i]) >= 0 /\ HexVal(e.los[j]) >= 0 THEN HexVal(e.his[i]) * 16 + HexVal(e.los[j]) ELSE -1)
+(* a field of 1..32 bits; refusing is allowed only when the field leaves the 64-bit word *)
+BitFieldOK(e) ==
+    IF e.ok THEN e.n >= 1 /\ e.n <= 32 /\ e.r = Field(e.x, e.start, e.n)
+    ELSE e.n = 0 \/ e.n > 32 \/ e.start + e.n > 64
+EncFieldOK(e) ==
+    IF e.ok THEN e.n >= 1 /\ e.n <= 32 /\ e.r = ZeroHighBits(e.x, 64, e.n) ELSE e.n = 0 \/ e.n > 32
+InterleaveOK(e) == e.r = Interleave(e.lo, e.hi)
+(* one parallel extract per mask; w32: the result is cut to 32 bits and add is added modulo 2^32 *)
+PextListOK(e) ==
+    /\ Len(e.r) = Len(e.ms)
+    /\ \A k \in 1..Len(e.ms) :
+          e.r[k] = IF e.w32 THEN Low32(Add64(Low32(Pext(e.x, e.ms[k], 64)), e.add))
+                   ELSE Pext(e.x, e.ms[k], 64)
+WordMapOK(e) ==
+    /\ Len(e.r) = Len(e.xs)
+    /\ \A k \in 1..Len(e.xs) :
+          e.r[k] = CASE e.kind = "popcount" -> PopCount(e.xs[k], 64)
+                     [] e.kind = "lz"       -> LeadingZeros(e.xs[k], 64)
+                     [] e.kind = "tz"       -> TrailingZeros(e.xs[k], 64)
+                     [] e.kind = "reverse"  -> BitReverse(e.xs[k], 64)
+
 (* dispatch; an op without a predicate (signal, panic) is never accepted *)
 EventOK(e) ==
     CASE e.op = "copy"          -> CopyOK(e)
@@ -485,5 +634,29 @@ EventOK(e) ==
       [] e.op = "positions"     -> PositionsOK(e)
       [] e.op = "find_last"     -> FindLastOK(e)
       [] e.op = "popcount_bytes" -> PopCountBytesOK(e)
+      [] e.op = "lower"         -> LowerOK(e)
+      [] e.op = "upper"         -> UpperOK(e)
+      [] e.op = "wildcard"      -> WildcardOK(e)
+      [] e.op = "charclass"     -> CharClassOK(e)
+      [] e.op = "filter"        -> FilterOK(e)
+      [] e.op = "runs"          -> RunsOK(e)
+      [] e.op = "dict"          -> DictOK(e)
+      [] e.op = "substrings"    -> SubstringsOK(e)
+      [] e.op = "valid_bulk"    -> ValidBulkOK(e)
+      [] e.op = "equal_bulk"    -> EqualBulkOK(e)
+      [] e.op = "bytehash"      -> ByteHashOK(e)
+      [] e.op = "bytehash_bulk" -> ByteHashBulkOK(e)
+      [] e.op = "lead_len"      -> LeadLenOK(e)
+      [] e.op = "utf8_iter"     -> Utf8IterOK(e)
+      [] e.op = "utf8_analyze"  -> Utf8AnalyzeOK(e)
+      [] e.op = "printable"     -> PrintableOK(e)
+      [] e.op = "hexnibble"     -> HexNibbleOK(e)
+      [] e.op = "hexdigit"      -> HexDigitOK(e)
+      [] e.op = "hexbyte"       -> HexByteOK(e)
+      [] e.op = "bitfield"      -> BitFieldOK(e)
+      [] e.op = "encfield"      -> EncFieldOK(e)
+      [] e.op = "interleave"    -> InterleaveOK(e)
+      [] e.op = "pext_list"     -> PextListOK(e)
+      [] e.op = "wordmap"       -> WordMapOK(e)
       [] OTHER                  -> FALSE
 =============================================================================
